@@ -49,8 +49,8 @@ PROPS.update({
     "C18": dict(PROTO, suites=["c18"], trivial=r"^$", timeout=3000,
         rule="every scenario class of C01/C04/C05/C06 (sampled) and typed-call histories under all four logger configurations; traffic (results, bytes written, reads, flushes) compared across configurations by the harness and with the model; every I/O-log line parsed back with strconv.QuotedPrefix/Unquote; every single-exchange line replayed through a lookup port against the real driver; the file logger on real temporary files with previous content and 0..10000 lines",
         trusted_base=[KERNEL, HARNESS, GOSTD, MODEL_PROTO, "strconv.Unquote as the inverse of %q; OS append semantics"],
-        assumptions=[CLOCK, "the debug log's text is not modelled (only its absence of effect)", "the replay clause is established on the real code by the harness oracle, not by a theorem"],
-        explanation="theorems: get/command/ping/deviceId/uint/int/string_transparent (erasing logger configuration commutes with every call), config_independent, uint_emits_one_line, no_logger_no_line, file_append, file_append_step"),
+        assumptions=[CLOCK, "the debug log's text is not modelled (only its absence of effect)", "in the replay theorems the lookup port is a port that answers the next transmission with the logged reception (ReplayReady); the Go lookup port of the harness is keyed by the logged transmission, which the theorems show equals the frame the replaying call writes"],
+        explanation="theorems: get/command/ping/deviceId/uint/int/string_transparent (erasing logger configuration commutes with every call), config_independent, uint_emits_one_line, no_logger_no_line, get/uint/int/string/deviceId/ping_replay (a call completed in a single exchange emits <tx frame, consumed bytes> and replays to the same result on any driver whose port answers with the logged bytes), file_append, file_append_step"),
 })
 
 TABLES = dict(driver="drivertables", lake_targets=["drivertables"], tools=["extract", "harness"], gen=["tables"])
@@ -97,7 +97,7 @@ PROPS.update({
         rule="every register of the three families (pool of ~150 register instances, 26 distinct (kind, signed, factor, offset, decoder) definitions) x transport outcomes: silent, the three device error flags, an unknown flag, all 256 one-byte raws, two-byte raws (stride; exhaustive per distinct definition in thorough), boundary and random 4/8-byte raws, uninterpretable widths {0,3,5,6,7,9,12}; texts over ASCII, the Unicode spaces, invalid UTF-8 and interior NULs; floats compared bit-exactly (the comparer forms raw/factor+offset with IEEE doubles as the Go expression does); non-trivial = not the silent-device line",
         trusted_base=[KERNEL, HARNESS, T1, MODEL_API, "bin/check's float realisation of (raw, factor, offset) (Python double arithmetic = Go's on amd64)"],
         assumptions=["strings.TrimSpace is modelled byte-wise on the UTF-8 encodings of the unicode.IsSpace runes"],
-        explanation="theorems: number_unsigned, number_signed, number_signed_boundary, number_signed_bad_width, text_value, enum_value, enum_undefined (any width, via C14 for every integer), fieldlist_value, transport_error_wrapped (kind preserved + register name), decoders_resolve"),
+        explanation="theorems: number_unsigned, number_signed, number_signed_boundary, number_signed_bad_width, text_value, text_shape (device bytes = spaces ++ value ++ spaces ++ NULs; the value neither starts nor ends with a white-space rune; trimming is idempotent), enum_value, enum_undefined (any width, via C14 for every integer), fieldlist_value, transport_error_wrapped (kind preserved + register name), decoders_resolve"),
     "C10": dict(TABLES, suites=["c10"], trivial=r"^ -> ok M=$",
         rule="the register list of every product class and random sub-lists with duplicate names/addresses x {complete run, every subset of nil handlers, a cancellation at every position (before the run, inside the k-th callback, during the k-th read), a device failure (silent or each error flag) at every register position, combinations}; the interleaved trace of wire reads and callbacks, the result and the collected map are compared with the model; ReadRegisterList on an identical device compared with the delivered values; the Go oracle states prefix/exactly-once/abort/cancel directly",
         trusted_base=[KERNEL, HARNESS, T1, MODEL_API, "context.Context (Go)"],
@@ -141,7 +141,7 @@ PROPS.update({
         rule="the REAL vecli binary (go build of /repo's vecli on every run) against a simulated VE.Direct device behind a pseudo-terminal (/dev/ptmx, tarm/serial at 19200 baud, 200 ms read timeout): one product of each class (more in thorough) x random valid register contents incl. boundary values x {no flag, -v, --io-log, both} + device silent after k answers (k = 0, 3, 7; random k in thorough) + device silent at ping; stdout parsed line by line (count, order, text of every line) and compared with the model's rendering (numbers printed with %f); every written I/O log is parsed and replayed through a lookup port with the real API; a run that does not terminate within 30 s is a HANG violation",
         trusted_base=[KERNEL, HARNESS, T1, MODEL_API, "the pty, tarm/serial, cobra, fmt %f/%s formatting (exercised, not modelled)", "bin/check's %f realisation of raw/factor+offset"],
         assumptions=["lines with equal sort key are compared as a set (Go ranges over maps in GetList)", "the no-hang clause for the real binary is a harness timeout, for the model it is totality"],
-        explanation="theorems: connect_error, fetch_error (error reported, no lines, total), count_is_lines, lines_sorted (non-decreasing sort key), lines_are_registers (each line = a register of the product's list with a value delivered by the read: C09/C10), all_delivered_printed"),
+        explanation="theorems: connect_error, fetch_error (error reported, no lines, total), count_is_lines, lines_sorted (non-decreasing sort key), lines_are_registers (each line = a register of the product's list with a value delivered by the read: C09/C10), all_delivered_printed, connected_names_unique (C11+C12), run_complete (healthy device: status ok, count = length of the product's list = number of lines, one line per register with its sort key, unit and the value read)"),
 })
 
 NOT_APPLICABLE = {}
